@@ -93,9 +93,31 @@ class Dual:
         return Dual(self.a * o.a, self.a * o.b + self.b * o.a)
     __rmul__ = __mul__
 
+    # order by value (max/min projections of a range geometry; such gradients are refused anyway)
+    def __lt__(self, o):
+        return self.a < (o.a if isinstance(o, Dual) else o)
+
+    def __gt__(self, o):
+        return self.a > (o.a if isinstance(o, Dual) else o)
+
 
 class Refuse(Exception):
     pass
+
+
+def poly_compose(p, q):
+    """coefficients of p(q(x))"""
+    res = [F(0)]
+    for c in reversed(p):
+        new = [F(0)] * (len(res) + len(q) - 1)
+        for i, a in enumerate(res):
+            for j, b_ in enumerate(q):
+                new[i + j] += a * b_
+        new[0] += c
+        res = new
+    while len(res) > 1 and res[-1] == 0:
+        res.pop()
+    return res
 
 
 def qv(v):
@@ -141,12 +163,22 @@ class Geo:
             return d["r"] * d["c"]
         if self.kind == "step":
             return d["nodes"]
+        if self.kind == "mapped_over":
+            return self.inner.nfun
         return d["n"]
+
+    @property
+    def inner(self):
+        """mapped_over: MappedGeometry(inner geometry, map, imap) -- the WRAPPER has no gradient of its own, the
+        inner geometry may (as a method of its class or attached to the object)"""
+        return Geo(**self.d["inner"])
 
     @property
     def pdim(self):
         if self.kind == "step":
             return self.d["steps"]
+        if self.kind == "mapped_over":
+            return self.inner.pdim
         return self.nfun
 
     @property
@@ -184,6 +216,8 @@ class Geo:
         d, k = self.d, self.kind
         if len(p) != self.pdim:
             raise Refuse("shape")
+        if k == "mapped_over":
+            return [horner(ufs(d["cs"]), t) for t in self.inner.o_par2fun(p)]
         if k in ("default1d", "cont1d", "discrete"):
             return list(p)
         if k in ("image", "default2d", "cont2d", "mapped_img"):
@@ -211,6 +245,10 @@ class Geo:
         d, k = self.d, self.kind
         if len(f) != self.nfun:
             raise Refuse("shape")
+        if k == "mapped_over":
+            if d.get("ics") is None:
+                raise Refuse("no inverse map")
+            return self.inner.o_fun2par([horner(ufs(d["ics"]), t) for t in f])
         if k in ("default1d", "cont1d", "discrete"):
             return list(f)
         if k in ("mapped", "sub1d", "user", "mapped_img"):
@@ -242,7 +280,10 @@ class Geo:
         if k == "default1d":
             return d["n"]
         if k == "cont1d":
-            return G.Continuous1D(self.grid())
+            g = G.Continuous1D(self.grid())
+            if d.get("grad"):      # an identity-like geometry OBJECT with `gradient` attached: the (identity) Jacobian
+                g.gradient = _fn(("grad", key), lambda: _geom_gradient([1.0], d.get("gstyle", "wrtfirst")))
+            return g
         if k == "discrete":
             return G.Discrete(d["n"])
         if k == "image":
@@ -254,6 +295,10 @@ class Geo:
         cs = fl(ufs(d["cs"])) if "cs" in d else None
         ics = fl(ufs(d["ics"])) if d.get("ics") is not None else None
         dcs = fl(dcoef(ufs(d["cs"]))) if "cs" in d else None
+        if k == "mapped_over":
+            mp = _fn(("map", fkey), lambda: (lambda x: horner(cs, x)))
+            imp = _fn(("imap", fkey), lambda: (lambda x: horner(ics, x))) if ics is not None else None
+            return G.MappedGeometry(self.inner.build(cuqi), map=mp, imap=imp)
         if k in ("mapped", "mapped_img"):
             base = G.Continuous1D(d["n"]) if k == "mapped" else G.Image2D((d["r"], d["c"]), order=d.get("order", "C"))
             mp = _fn(("map", fkey), lambda: (lambda x: horner(cs, x)))
@@ -285,6 +330,25 @@ class Geo:
     # ---- Coq descriptor
     def coq(self):
         d, k = self.d, self.kind
+        if k == "mapped_over":
+            # par2fun = map o inner.par2fun, fun2par = inner.fun2par o imap; hasattr(wrapper, "gradient") is False
+            inn = self.inner
+            ind = inn.d
+            conv = "CvId"
+            if inn.kind == "step":
+                conv = "(CvStep %s %s %s)" % (cnat(ind["nodes"]), cnatll(inn.step_idx()), {"max": "PMax", "min": "PMin", "mean": "PMean"}[ind["proj"]])
+                cs, inner_ics, inner_raises = ufs(d["cs"]), [F(0), F(1)], None
+            else:
+                cs = poly_compose(ufs(d["cs"]), ufs(ind["cs"]))
+                inner_ics = ufs(ind["ics"]) if ind.get("ics") is not None else None
+                inner_raises = "F2NoImap" if inn.kind == "mapped" else "F2NotImpl"
+            if d.get("ics") is None:
+                f2p = "F2NoImap"
+            elif inner_ics is None:
+                f2p = inner_raises
+            else:
+                f2p = "(F2Imap %s)" % qv(poly_compose(inner_ics, ufs(d["ics"])))
+            return "(mkGeo KMapped %s %s %s (Some %s) %s None %s)" % (cnat(self.pdim), cnat(self.nfun), conv, qv(cs), f2p, cnat(2))
         cls = {"default1d": "KDefault1D", "cont1d": "KCont1D", "discrete": "KDiscrete", "image": "KImage2D",
                "default2d": "KDefault2D", "cont2d": "KCont2D", "step": "KStep", "mapped": "KMapped",
                "mapped_img": "KMapped", "sub1d": "KSub1D", "user": "KUser"}[k]
@@ -303,7 +367,7 @@ class Geo:
             f2p = "F2Base"
         if d.get("grad"):
             grad = "(Some (GGStepSum %s))" % cnatll(self.step_idx()) if k == "step" else "(Some (GGDiag %s %s))" % (
-                qv(dcoef(ufs(d["cs"]))), GSTYLES[d.get("gstyle", "wrtfirst")])
+                qv(dcoef(ufs(d["cs"])) if "cs" in d else [F(1)]), GSTYLES[d.get("gstyle", "wrtfirst")])
         else:
             grad = "None"
         vid = 1 if d.get("grid") else 0
@@ -311,6 +375,8 @@ class Geo:
 
     def name(self):
         d = self.d
+        if self.kind == "mapped_over":
+            return "mapped(%s)%s" % (self.inner.name(), "+imap" if d.get("ics") is not None else "-noimap")
         s = self.kind
         if self.kind in ("image", "mapped_img"):
             s += "-" + ("visual" if d.get("visual") else d.get("order", "C"))
@@ -452,6 +518,12 @@ def build_model(cuqi, meta, dg_obj, rg_obj):
         if kind == "pde_both":           # deliberately different, so that the dispatch order is visible
             P.jacobian_wrt_parameter = lambda self, wrt: 2 * jac(wrt)
         pde = P(lambda x: (np.eye(m), A @ horner(cs, x.ravel()) + b))
+        if meta.get("pde_inst"):          # attached to the PDE object instead of its class (hasattr sees both)
+            for nm in ("gradient_wrt_parameter", "jacobian_wrt_parameter"):
+                if nm in P.__dict__:
+                    fn = P.__dict__[nm]
+                    delattr(P, nm)
+                    setattr(pde, nm, (lambda f_: (lambda *a: f_(pde, *a)))(fn))
         return PDEModel(pde, rg_obj, dg_obj), None
     raise ValueError(kind)
 
@@ -916,7 +988,7 @@ def classify(meta, detail):
         if base in ("arrpar", "arrfun") and dg.kind == "discrete" and rg.kind == "discrete" and dg.pdim != rg.pdim:
             return SIG_EQIDX
         strip = lambda g: {k_: v_ for k_, v_ in g.d.items() if k_ not in ("grad", "gstyle")}
-        if base in ("arrpar", "arrfun") and dg.kind in ("step", "mapped", "mapped_img") and dg.has_grad and not rg.has_grad \
+        if base in ("arrpar", "arrfun") and dg.kind in ("step", "mapped", "mapped_img", "cont1d") and dg.has_grad and not rg.has_grad \
                 and strip(dg) == strip(rg):
             return SIG_EQKEY
         if rg.kind == "step" and rg.d["steps"] == 1 and base not in ("samples", "samplesfun") and "0-d output" in str(detail):
@@ -928,6 +1000,10 @@ def classify(meta, detail):
             return SIG_TAGLEAK
         if m["dform"].split("=")[0] in ("arrpar", "arrfun") and dg.kind == "discrete" and rg.kind == "discrete" and dg.pdim != rg.pdim:
             return SIG_EQIDX
+        strip = lambda g: {k_: v_ for k_, v_ in g.d.items() if k_ not in ("grad", "gstyle")}
+        if m["dform"].split("=")[0] in ("arrpar", "arrfun") and rg.kind == "cont1d" and rg.has_grad and not dg.has_grad \
+                and strip(dg) == strip(rg):
+            return SIG_EQKEY            # the direction's tag (range geometry object with `gradient`) meets the domain geometry
         return "Model.gradient|d=%s,w=%s:%s->%s:%s" % (m["dform"].split("=")[0], m["wform"].split("=")[0], dg.name(), rg.name(), m["mk"])
     if op == "rename":
         return "Model.forward(distribution)|%s" % m["mk"]
@@ -1137,6 +1213,62 @@ def run(ctx):
                             if wform == "samples":
                                 meta["wpar"] = True
                             add(gradient_case, meta)
+    # ---- attribute-based dispatch (`hasattr(domain_geometry, "gradient")`, hasattr(pde, ...)), always: the attribute on the
+    #      class / on the object / only on a geometry WRAPPED by a MappedGeometry (the wrapper has none: refusal) / on an
+    #      identity-like geometry object; as domain and as range
+    aff_o, iaff_o = [1, 2], [F(-1, 2), F(1, 2)]
+    aff_i, iaff_i = [-1, 4], [F(1, 4), F(1, 4)]
+    inners = [Geo(kind="user", n=3, cs=fs(aff_i), ics=fs(iaff_i), grad=True),
+              Geo(kind="user", n=3, cs=fs([0, 1, 1]), grad=True, gstyle="dirfirst"),
+              Geo(kind="sub1d", n=3, cs=fs(aff_i), ics=fs(iaff_i), grad=True),
+              Geo(kind="step", nodes=4, steps=2, proj="max", grad=True),
+              Geo(kind="mapped", n=3, cs=fs(aff_i), ics=fs(iaff_i), grad=True),
+              Geo(kind="user", n=3, cs=fs(aff_i), ics=fs(iaff_i))]
+    wrapped = []
+    for inn in inners:
+        wrapped.append(Geo(kind="mapped_over", inner=inn.d, cs=fs(aff_o), ics=fs(iaff_o)))
+        wrapped.append(Geo(kind="mapped_over", inner=inn.d, cs=fs([0, 0, 1])))
+    for wg in wrapped:
+        for mk, extra in [("jac", {}), ("dir", {"mstyle": "dirfirst"}), ("linmat", {}), ("pde_gw", {"pde_inst": True})]:
+            rg = rng.choice([Geo(kind="default1d", n=2), Geo(kind="cont1d", n=3), Geo(kind="discrete", n=2)])
+            mm = rand_model(rng, mk, wg.nfun, rg.nfun)
+            for dform, wform in [("par", "par"), ("arrpar", "par"), ("par", "arrpar"), ("fun", "arrfun=copy"), ("par", "fun"), ("arrfun=copy", "arrpar=copy")]:
+                dvec, pvec = rand_vec(rng, rg.pdim), rand_vec(rng, wg.pdim, halves=False)
+                w_in = wg.o_par2fun(pvec) if wform.split("=")[0] in ("fun", "arrfun") else pvec
+                meta = dict(op="gradient", mk=mk, dg=wg.d, rg=rg.d, dform=dform, wform=wform, d=fs(dvec), w=fs(w_in), **mm)
+                meta.update(extra)
+                add(gradient_case, meta)
+            if mk != "linmat":
+                for form in ["par", "fun", "arrpar", "arrfun=copy", "samples"]:
+                    base = form.split("=")[0]
+                    p = rand_vec(rng, wg.pdim, halves=False)
+                    add(forward_case, dict(op="forward", mk=mk, dg=wg.d, rg=rg.d, form=form, vals=[fs(wg.o_par2fun(p) if base in ("fun", "arrfun") else p)],
+                                           flag=base != "fun", call=False, **dict(mm, **extra)))
+        # as range (refused whatever the domain), and the output conversion of forward
+        dgr = Geo(kind="cont1d", n=3)
+        mm = rand_model(rng, "jac", 3, wg.nfun)
+        for dform, wform in [("par", "par"), ("arrpar", "arrpar")]:
+            add(gradient_case, dict(op="gradient", mk="jac", dg=dgr.d, rg=wg.d, dform=dform, wform=wform, d=fs(rand_vec(rng, wg.pdim)),
+                                    w=fs(rand_vec(rng, 3)), **mm))
+        for form in ["par", "arrpar", "samples"]:
+            add(forward_case, dict(op="forward", mk="jac", dg=dgr.d, rg=wg.d, form=form, vals=[fs(rand_vec(rng, 3))], flag=True, call=False, **mm))
+    # identity-like geometry object with `gradient` attached (domain: used; range: ignored), every style; PDE attributes on the object
+    for gsty in ["wrtfirst", "dirfirst", "strip"]:
+        cg = Geo(kind="cont1d", n=3, grad=True, gstyle=gsty)
+        for dg, rg in [(cg, Geo(kind="default1d", n=2)), (cg, Geo(kind="cont1d", n=3)), (Geo(kind="discrete", n=2), cg),
+                       (Geo(kind="cont1d", n=3), cg)]:
+            for mk, extra in [("jac", {"jt": True}), ("dir", {"mstyle": "wrtfirst"}), ("linfun", {}), ("pde_jw", {"pde_inst": True}),
+                              ("pde_both", {"pde_inst": True})]:
+                mm = rand_model(rng, mk, dg.nfun, rg.nfun)
+                for dform, wform in [("par", "par"), ("arrpar", "arrpar"), ("par", "arrfun"), ("arrfun=copy", "par")]:
+                    meta = dict(op="gradient", mk=mk, dg=dg.d, rg=rg.d, dform=dform, wform=wform, d=fs(rand_vec(rng, rg.pdim)),
+                                w=fs(rand_vec(rng, dg.pdim)), **mm)
+                    meta.update(extra)
+                    add(gradient_case, meta)
+                for form in ["par", "arrpar", "arrfun=copy"]:
+                    add(forward_case, dict(op="forward", mk=mk, dg=dg.d, rg=rg.d, form=form, vals=[fs(rand_vec(rng, dg.pdim))], flag=True,
+                                           call=False, **dict(mm, **extra)))
+
     # ---- subclass-tag propagation through the user callables, always: every style of the model's gradient callable x
     #      every style of the geometry's gradient x direction form x wrt form (contains the tag-leak class)
     for n in [3]:
